@@ -122,13 +122,15 @@ def gen(rng, idx, tier):
     r = rng.random()
     stratum = "default"
     kern = rng.choice(["aligned", "aligned", "ragged"])
+    want_multi = rng.random() < 0.1
+    more = {"n_axes": 2, "shuffle_sources": True} if want_multi else {}
     for _attempt in range(8):
         ds = masters.family(rng, n_glyphs=rng.choice([4, 5, 6]), kerning=kern, anchors=True,
                             missing_glyph=False, extra_glyph=False, rules=0,
                             comp_2x2=rng.random() < 0.3,
                             kinds=rng.choice([["line", "curve"], ["line", "qcurve"], ["line"]]),
                             coord_mode=rng.choice(["int", "half"]), kern_values="int",
-                            sparse=rng.random() < 0.25)
+                            sparse=rng.random() < 0.25 and not want_multi, **more)
         # axis coordinates are stored as F2Dot14 (fvar / avar / regions): two masters closer
         # than a few percent of the axis turn that quantisation (2^-14) into whole font units
         # at the neighbouring master - a limit of the format, not the statement's "one unit"
@@ -175,8 +177,21 @@ def gen(rng, idx, tier):
                             {"name": "caret_1", "x": 200 + 10 * ui, "y": 0},
                             {"name": "caret_2", "x": (200 if ui == k else 300) + 10 * ui, "y": 0}]
         stratum = "carets_coincide_in_one_master"
+    multi = False
+    if want_multi and stratum == "default" and len(ds["axes"]) == 2:
+        # a designspace that defines several variable fonts: the whole space, and one axis alone
+        # with the other axis left at its default (that font uses a subset of the sources; the
+        # sources are in shuffled order)
+        a0, a1 = ds["axes"][0]["name"], ds["axes"][1]["name"]
+        vfs = [{"name": "VF-Full", "axisSubsets": [{"name": a0}, {"name": a1}]},
+               {"name": "VF-%s" % ds["axes"][0]["tag"], "axisSubsets": [{"name": a0}]}]
+        if rng.random() < 0.5:
+            vfs.append({"name": "VF-%s" % ds["axes"][1]["tag"], "axisSubsets": [{"name": a1}]})
+        rng.shuffle(vfs)
+        ds["variableFonts"] = vfs
+        multi = True
     return {"stratum": stratum, "ds": ds, "func": func, "variableFeatures": varfea,
-            "filters": filters, "lib": rng.choice(["defcon", "ufoLib2"])}
+            "multi_vf": multi, "filters": filters, "lib": rng.choice(["defcon", "ufoLib2"])}
 
 
 def categories_with_mark_kerning(rng, ds):
@@ -288,12 +303,34 @@ def run(case):
         import ufo2ft.filters as F
         fkw["filters"] = [...] + [getattr(F, n)(pre=True) for n in case["filters"]]
         bump("prefilter_cases")
+    targets = []     # (variable font name, saved bytes, source indices, axis tags kept | None)
     try:
-        vf_ = getattr(ufo2ft, func)(doc, variableFeatures=case["variableFeatures"],
-                                    useProductionNames=False, **fkw)
-        buf = io.BytesIO()
-        vf_.save(buf)
-        vf_bytes = buf.getvalue()
+        if case.get("multi_vf"):
+            res_ = getattr(ufo2ft, func + "s")(doc, variableFeatures=case["variableFeatures"],
+                                               useProductionNames=False, **fkw)
+            axes_by_name = {a["name"]: a for a in ds["axes"]}
+            for vfd in ds["variableFonts"]:
+                buf = io.BytesIO()
+                res_[vfd["name"]].save(buf)
+                ranged = [sub["name"] for sub in vfd["axisSubsets"] if "value" not in sub]
+                idx = []
+                for si_, src_ in enumerate(ds["sources"]):
+                    full = V.full_location(ds["axes"], src_["location"])
+                    dflt = V.full_location(ds["axes"], {})
+                    if all(full[n_] == dflt[n_] for n_ in axes_by_name if n_ not in ranged):
+                        idx.append(si_)
+                targets.append((vfd["name"], buf.getvalue(), idx,
+                                [axes_by_name[n_]["tag"] for n_ in ranged]))
+            bump("multi_vf_designspaces")
+            if any(len(t[2]) < len(ds["sources"]) for t in targets):
+                bump("multi_vf_fonts_using_a_subset_of_the_sources",
+                     sum(1 for t in targets if len(t[2]) < len(ds["sources"])))
+        else:
+            vf_ = getattr(ufo2ft, func)(doc, variableFeatures=case["variableFeatures"],
+                                        useProductionNames=False, **fkw)
+            buf = io.BytesIO()
+            vf_.save(buf)
+            targets.append((None, buf.getvalue(), list(range(len(ds["sources"]))), None))
     except Exception:  # noqa: BLE001
         return {"status": "violated", "counters": counters, "violations": [
             {"mech": "unexpected_exception", "detail": {"trace": traceback.format_exc()[-2500:]}}]}
@@ -319,10 +356,14 @@ def run(case):
     moving = False
     judged = 0
     all_kern_keys = [set((l, r) for l, r, _ in u.get("kerning") or []) for u in ds["ufos"]]
-    for si, src in enumerate(ds["sources"]):
+    for vf_name, vf_bytes, si, keep_tags in [(t[0], t[1], i_, t[3]) for t in targets for i_ in t[2]]:
+        src = ds["sources"][si]
         if src.get("layerName"):
             continue
         uloc = user_location(ds, src["location"])
+        if keep_tags is not None:
+            uloc = {t_: v_ for t_, v_ in uloc.items() if t_ in keep_tags}
+            bump("multi_vf_master_locations")
         try:
             inst = instancer.instantiateVariableFont(TTFont(io.BytesIO(vf_bytes)), uloc)
             b = io.BytesIO()
@@ -498,6 +539,15 @@ def classify(v, case):
         tr = det.get("trace", "")
         if "varLib/merger.py" in tr and "GPOS" in tr:
             return "merge_path_fails_on_structurally_different_master_gpos"
+        if "varLib/merger.py" in tr and "GDEF.table.MarkGlyphSetsDef" in tr:
+            # the same structural difference seen from GDEF: with glyph categories the kern
+            # writer puts pairs that involve marks into lookups with a mark filtering set; a
+            # master whose only such pair has value 0 (dropped) or lacks the key has one
+            # filtering set fewer
+            kerns = [u.get("kerning") or [] for u in case["ds"]["ufos"] if u.get("glyphs")]
+            keysets = [{(k[0], k[1]) for k in ks if k[2] != 0} for ks in kerns]
+            if any(ks != keysets[0] for ks in keysets[1:]):
+                return "merge_path_fails_on_structurally_different_master_gpos"
         if "varLib/merger.py" in tr and "GDEF.table.LigCaretList" in tr and ".CaretCount" in tr:
             # ligature carets are collected in a set per master (ufo2ft's GDEF writer, then
             # feaLib): two caret anchors that coincide in ONE master give that master fewer
